@@ -84,6 +84,7 @@ type FnCtx struct {
 	region    map[*ssa.BasicBlock]bool
 
 	ghostVars  map[string]GhostVar
+	lastGhost  map[string]SV // ghost results of the most recent contracted call
 	modTargets []modTarget // evaluated modifies clause (unit only)
 	modAll     bool
 }
@@ -396,7 +397,7 @@ func (vc *VC) joinStates(sts []*State, hint string) *State {
 	} else {
 		out.alloc = vc.fresh("alloc", SInt)
 		for _, s := range live {
-			vc.assert(mkImp(s.guard, mkEq(out.alloc, s.alloc)))
+			vc.assertDef(out.alloc, mkImp(s.guard, mkEq(out.alloc, s.alloc)))
 		}
 	}
 	cols := map[string]bool{}
@@ -425,7 +426,7 @@ func (vc *VC) joinStates(sts []*State, hint string) *State {
 		}
 		nv := vc.fresh("H_"+c, srt)
 		for _, s := range live {
-			vc.assert(mkImp(s.guard, mkEq(nv, vc.colGet(s, c, srt))))
+			vc.assertDef(nv, mkImp(s.guard, mkEq(nv, vc.colGet(s, c, srt))))
 		}
 		out.heap[c] = nv
 	}
@@ -473,7 +474,7 @@ func (fc *FnCtx) join(b *ssa.BasicBlock, ins []edgeIn) *State {
 		}
 		for _, ic := range incs {
 			src := fc.val(phi.Edges[ic.idx])
-			fc.vc.assert(mkImp(ic.guard, svEq(nv, fc.coerce(src, phi.Type()))))
+			fc.vc.defEq(ic.guard, nv, fc.coerce(src, phi.Type()))
 		}
 		fc.vals[phi] = nv
 	}
@@ -578,6 +579,7 @@ func (fc *FnCtx) cutLoop(h *ssa.BasicBlock, st *State) *State {
 func (fc *FnCtx) dryRunLoop(h *ssa.BasicBlock, st *State, body map[*ssa.BasicBlock]bool, phis []*ssa.Phi) []string {
 	vc := fc.vc
 	snapDecls, snapAsserts, snapObligs, snapCands, snapN := len(vc.decls), len(vc.asserts), len(vc.obligs), len(vc.cands), vc.n
+	snapAdef := len(vc.adef)
 	snapNames := map[string]int{}
 	for k, v := range vc.names {
 		snapNames[k] = v
@@ -612,6 +614,7 @@ func (fc *FnCtx) dryRunLoop(h *ssa.BasicBlock, st *State, body map[*ssa.BasicBlo
 	// column sorts discovered during the dry run stay registered (cols map), but
 	// declarations are rolled back together with everything else.
 	vc.decls, vc.asserts, vc.obligs, vc.cands, vc.n = vc.decls[:snapDecls], vc.asserts[:snapAsserts], vc.obligs[:snapObligs], vc.cands[:snapCands], snapN
+	vc.adef = vc.adef[:snapAdef]
 	vc.names = snapNames
 	vc.colDecl = snapColDecl
 	vc.ufDecl = snapUF
